@@ -342,6 +342,16 @@ pub fn arg_u64(name: &str) -> Option<u64> {
     args.iter().position(|a| a == name).and_then(|i| args.get(i + 1)).and_then(|v| v.parse().ok())
 }
 
+/// key suffix of the known finding "cast_data_reducer cancels <x>Data(un<X>Data d)": the inner
+/// un<X>Data is the shape check `expect n: T = d` compiles to, the optimiser removes it
+pub const CAST_KEY_SUFFIX: &str = "optimiser-cancels-data-cast-check";
+
+/// the signature of that finding: the unoptimised program fails INSIDE an un<X>Data builtin
+/// (`DeserialisationError`), the optimised one returns
+pub fn cast_check_removed(pre: &Out, post: &Out) -> bool {
+    matches!(pre, Out::Fail(v, _) if v == "DeserialisationError") && matches!(post, Out::Const(_) | Out::Term(_))
+}
+
 /// record a failure under a SHARED key (a known finding): the first few concrete cases are kept as
 /// replays, the rest is only counted, so that they never crowd out other failures
 pub fn fail_shared(rep: &mut Report, key: &str, what: &str, input: serde_json::Value, detail: serde_json::Value) {
